@@ -2,6 +2,7 @@ pub mod gen_bmca;
 pub mod gen_c07;
 pub mod filt;
 pub mod gen_filt;
+pub mod gen_loop;
 pub mod gen_fml;
 pub mod gen_inst;
 pub mod inst;
